@@ -23,4 +23,6 @@ for c in "$@"; do
   cp /tmp/evidence_$c.json.bak evidence/$c.json 2>/dev/null
 done
 git -C $WT checkout -q -- .
+# the translators rewrote coq/theories/Gen/*.v from the scratch worktree: put the tables of the unchanged tree back
+git -C /verif checkout -q -- coq/theories/Gen 2>/dev/null
 echo "$RES" | tee $D/run_summary.txt
